@@ -10,7 +10,7 @@ use std::os::unix::fs::MetadataExt;
 
 pub static DEF: PropDef = PropDef {
     id: "C13",
-    rule: "random: one directory holding every creatable type (regular empty/non-empty, directory empty/non-empty, fifo, socket, hard-linked pair, symlinks to each of those, dangling link), each with a random 12-bit mode and uid/gid from {0,1,65534,54321} (lchown for links) x follow mode (1 case in 5 preceded by another follow option, which it overrides) x {entries as starting points (depth 0), one level down} x ~14 tests per tree drawn from -type/-xtype t, -perm M|-M|/M in octal and six symbolic spellings (per-class '=', additive chains, who-less clauses, subtractive 'a=rwx,o-w', copying 'g=u,o=g', overriding 'a=rwx,u=..'; s/t bits; conditional 'X' as in a+X, u=rwX, u+x,go+X), -links/-inum/-uid/-gid [+-]N around real values, -user/-group by name and number, -empty, -samefile F for every F, -lname. Oracle: predicate over lstat/stat records chosen per the statement. Exhaustive -perm sub-run: a directory of 4096 regular files, one per permission value; each operand is evaluated against ALL modes (operands: 300 random x 3 forms in quick, all 4096 x 3 in thorough), octal and symbolic spellings must select identical sets. Non-trivial = the entry set contains a link whose lstat and stat records differ in the tested attribute and the test is evaluated on it (always true for the generated directory), and >= 1 entry is selected and >= 1 rejected. Distinct = distinct case JSON.",
+    rule: "random: one directory holding every creatable type (regular empty/non-empty, directory empty/non-empty, fifo, socket, hard-linked pair, symlinks to each of those, dangling link), each with a random 12-bit mode and uid/gid from {0,1,65534,54321} (lchown for links) x follow mode (1 case in 5 preceded by another follow option, which it overrides) x {entries as starting points (depth 0), one level down, starting points walked to the bottom; the last two also under -depth} x ~14 tests per tree drawn from -type/-xtype t, -perm M|-M|/M in octal and six symbolic spellings (per-class '=', additive chains, who-less clauses, subtractive 'a=rwx,o-w', copying 'g=u,o=g', overriding 'a=rwx,u=..'; s/t bits; conditional 'X' as in a+X, u=rwX, u+x,go+X), -links/-inum/-uid/-gid [+-]N around real values, -user/-group by name and number, -empty, -samefile F for every F, -lname. Oracle: predicate over lstat/stat records chosen per the statement. Exhaustive -perm sub-run: a directory of 4096 regular files, one per permission value; each operand is evaluated against ALL modes (operands: 300 random x 3 forms in quick, all 4096 x 3 in thorough), octal and symbolic spellings must select identical sets. Non-trivial = the entry set contains a link whose lstat and stat records differ in the tested attribute and the test is evaluated on it (always true for the generated directory), and >= 1 entry is selected and >= 1 rejected. Distinct = distinct case JSON.",
     assumptions: &["the harness runs as root (chmod keeps all twelve bits, chown to ids without passwd entries works)", "who-less symbolic clauses (=rx, +x) mean 'a' - the process umask is not consulted (POSIX find / GNU find)"],
     run,
     replay,
